@@ -293,11 +293,19 @@ def run_check(prop, tier, jobs=None, seed=None, out=sys.stdout):
     try:
         with ctx.Pool(jobs, initializer=_worker_init, initargs=(root, 8.0, run_tmp), maxtasksperchild=None) as pool:
             it = pool.imap_unordered(_worker_tagged, [(i, prop, shards[i], tier, seed) for i in order], chunksize=1)
+            # sweep mode (mutation / seed sweeps only, never a registered command): stop exploring at the first shard that reports a
+            # violation which is not a listed known finding -- the question there is only "detected or not"
+            stop_first = bool(os.environ.get("VERIF_STOP_AT_FIRST"))
+            known_cl = {k["classifier"] for k in load_known() if k.get("status") == "known" and k.get("property") == prop} if stop_first else set()
             for i, (status, r) in it:
                 if status == "ok":
                     results[i] = r
+                    if stop_first and any(f.get("classifier") not in known_cl for f in r["failures"]):
+                        pool.terminate()
+                        break
                 else:
                     errors.append(r)
+        results = [r for r in results if r is not None]
     finally:
         shutil.rmtree(run_tmp, ignore_errors=True)
     if errors:
